@@ -1,7 +1,7 @@
 PROP = {'id': 'C13',
  'level': 'proof',
  'functions': ['_update_with_blocking_jobs', 'Cluster.prepare_for_resubmission', 'resubmit_jobs'],
- 'native': ['_update_with_blocking_jobs', 'Cluster.prepare_for_resubmission'],
+ 'native': ['_update_with_blocking_jobs', 'Cluster.prepare_for_resubmission', 'resubmit_jobs'],
  'lemmas': ['lemma_count_in', 'lemma_fold_schemas'],
  'records': ['Cluster', 'ClusterConfig', 'JobStatus', 'Job', 'JobConfiguration'],
  'min_obligations': 300,
@@ -24,4 +24,5 @@ PROP = {'id': 'C13',
                 'callback is under contract: on an incomplete submission it exits 1 with jobs, results and counters untouched and gives the role back iff it '
                 'took it (F4); otherwise the closure is computed before the results are pruned - the pruned set IS the set that is reset -, pruning happens '
                 'exactly once, every precondition of prepare_for_resubmission and submit_jobs is established, a missing events directory is tolerated (F5) and '
-                'the role is given back before every exit.'}
+                'the role is given back before every exit.',
+ 'native_budget': {'quick': 60, 'thorough': 400}}
